@@ -43,6 +43,16 @@ def worker(unit, emit):
                        {'m': name, 'w': x, 'how': how, 'o': ac.opt_id(kw), 'ret': lib.from_cps(rv['v'])[:80],
                         'nonascii_in': ''.join(sorted(set(c for c in x if ord(c) > 127)))})
 
+    # characters whose case mapping lands in ASCII (Kelvin sign, dotless i, long s, Angstrom sign, ...):
+    # cheap, so every corpus presentation is tried at every matching letter
+    special = {'K': '\u212a', 'k': '\u212a', 'I': '\u0131', 'i': '\u0131', 'S': '\u017f', 's': '\u017f',
+               'A': '\u212b'}
+    special2 = {'I': '\u0130', 'i': '\u0130', 'S': '\u1e9e', 's': '\xdf'}
+    for base in lib.pick(lib.corpus(name, mod), p['special_bases'], rnd):
+        for i, c in enumerate(base):
+            for table in (special, special2):
+                if c in table:
+                    rec(base[:i] + table[c] + base[i + 1:], 'case-special U+%04X@%d' % (ord(table[c]), i))
     for base in bases:
         rec(base, 'base')
         for script in scripts1:
@@ -82,7 +92,7 @@ def main():
             allnum.setdefault(str(int(v)), []).append(cp)
     if quick:
         allnum = {k: rnd.sample(v, min(len(v), 12)) for k, v in allnum.items()}
-    p = {'seed': chk.seed, 'bases': 3 if quick else 20, 'k': 2 if quick else 6, 'opt_p': 0.2 if quick else 1.0, 'allnum': allnum}
+    p = {'seed': chk.seed, 'bases': 3 if quick else 20, 'k': 2 if quick else 6, 'opt_p': 0.2 if quick else 1.0, 'allnum': allnum, 'special_bases': 150 if quick else 2000}
     units = [(name, scripts1, p) for name, _ in lib.modules()]
     shards = chk.drive(units, worker)
     extra = run.merge_extra(shards)
